@@ -617,6 +617,9 @@ func run(c *lib.Ctx) {
 		go func(v string) { defer wg.Done(); runVariant(c, v) }(v)
 	}
 	wg.Wait()
+	concurrentListings(c)
+	c.Floor("concurrent_slow_listings_read", 4)
+	c.Floor("concurrent_peer_listings", 20)
 	// a run that never saw the interesting responses proves nothing
 	c.Floor("named_file_served", 200)
 	c.Floor("index_page_served", 50)
